@@ -39,23 +39,30 @@ Lemma cnt_pop x id rest qs l :
   cnt x (concat (firstn l qs ++ [rest] ++ skipn (S l) qs)) + (if Nat.eqb id x then 1 else 0) = cnt x (concat qs).
 Proof.
   intros H. rewrite (nth_error_split_list qs l _ H) at 3.
-  rewrite !concat_app. cbn [concat app]. rewrite !cnt_app, cnt_cons. rewrite ?app_nil_r. lia.
+  rewrite !concat_app. cbn [concat app]. rewrite !cnt_app, cnt_cons, ?cnt_app. change (cnt x []) with 0. lia.
 Qed.
+
+Lemma hget_cons a b r h : hget ((a, b) :: r) h = if Nat.eqb a h then Some b else hget r h.
+Proof. unfold hget. cbn [find fst]. destruct (Nat.eqb a h); reflexivity. Qed.
+Lemma hdel_cons a b r h : hdel ((a, b) :: r) h = if Nat.eqb a h then r else (a, b) :: hdel r h.
+Proof. reflexivity. Qed.
+Lemma map_snd_cons (a b : nat) r : map snd ((a, b) :: r) = b :: map snd r.
+Proof. reflexivity. Qed.
 
 Lemma hget_some_cnt hs h id : hget hs h = Some id -> 0 < cnt id (map snd hs).
 Proof.
-  unfold hget. induction hs as [|e r IH]; cbn; [discriminate|].
-  destruct (Nat.eqb (fst e) h); cbn.
-  - intros H. inversion H; subst. rewrite cnt_cons, Nat.eqb_refl. lia.
-  - intros H. rewrite cnt_cons. specialize (IH H). lia.
+  induction hs as [|[a b] r IH]; [discriminate|]. rewrite hget_cons, map_snd_cons, cnt_cons.
+  destruct (Nat.eqb a h).
+  - intros H. inversion H; subst. rewrite Nat.eqb_refl. lia.
+  - intros H. specialize (IH H). lia.
 Qed.
 
 Lemma cnt_hdel x hs h id : hget hs h = Some id -> cnt x (map snd (hdel hs h)) + (if Nat.eqb id x then 1 else 0) = cnt x (map snd hs).
 Proof.
-  unfold hget. induction hs as [|e r IH]; cbn; [discriminate|].
-  destruct (Nat.eqb (fst e) h); cbn.
-  - intros H. inversion H; subst. rewrite cnt_cons. lia.
-  - intros H. rewrite !cnt_cons. specialize (IH H). lia.
+  induction hs as [|[a b] r IH]; [discriminate|]. rewrite hget_cons, hdel_cons, map_snd_cons, cnt_cons.
+  destruct (Nat.eqb a h).
+  - intros H. inversion H; subst. lia.
+  - intros H. rewrite map_snd_cons, cnt_cons. specialize (IH H). lia.
 Qed.
 
 Lemma li_init k : LI (linit k).
@@ -70,9 +77,9 @@ Lemma release_spec r d id x :
   r' x = (if Nat.eqb x id then r id - 1 else r x) /\
   d' x = (if Nat.eqb x id then (if Nat.eqb (r id - 1) 0 then d id + 1 else d id) else d x).
 Proof.
-  intros H. unfold release, updn. destruct (Nat.eqb_spec x id) as [->|Hne].
-  - rewrite Nat.eqb_refl. split; [reflexivity|]. destruct (Nat.eqb (r id - 1) 0); [rewrite Nat.eqb_refl|]; reflexivity.
-  - split; [reflexivity|]. destruct (Nat.eqb (r id - 1) 0); [|reflexivity]. destruct (Nat.eqb_spec x id); [contradiction|reflexivity].
+  intros H. unfold release, updn. destruct (Nat.eqb x id) eqn:E.
+  - apply Nat.eqb_eq in E. subst x. split; [reflexivity|]. destruct (Nat.eqb (r id - 1) 0); rewrite ?Nat.eqb_refl; reflexivity.
+  - split; [reflexivity|]. destruct (Nat.eqb (r id - 1) 0); rewrite ?E; reflexivity.
 Qed.
 
 (* the drain of a teardown: every queued copy is released, one after the other *)
@@ -91,12 +98,13 @@ Proof.
                              d1 x = (if Nat.eqb x a then (if Nat.eqb (r a - 1) 0 then d a + 1 else d a) else d x)).
     { intros x. pose proof (release_spec r d a x H1) as S. rewrite E in S. exact S. }
     apply IH.
-    + intros x. destruct (Spec x) as [-> _]. rewrite Hr, cnt_cons. destruct (Nat.eqb_spec x a) as [->|Hne].
-      * rewrite Hr, cnt_cons, Nat.eqb_refl. lia.
-      * destruct (Nat.eqb_spec a x); [congruence|]. lia.
-    + intros x. destruct (Spec x) as [Hrx ->]. rewrite Hrx. destruct (Nat.eqb_spec x a) as [->|Hne]; [|apply Hd].
+    + intros x. destruct (Spec x) as [-> _]. destruct (Nat.eqb x a) eqn:Ex.
+      * apply Nat.eqb_eq in Ex. subst x. pose proof (Hr a) as Ha. rewrite cnt_cons, Nat.eqb_refl in Ha. lia.
+      * pose proof (Hr x) as Hx. rewrite cnt_cons in Hx. rewrite Nat.eqb_sym, Ex in Hx. lia.
+    + intros x. destruct (Spec x) as [Hrx ->]. rewrite Hrx. destruct (Nat.eqb x a) eqn:Ex; [|apply Hd].
+      apply Nat.eqb_eq in Ex. subst x.
       assert (Sa : snt a = true). { apply Hs. rewrite cnt_cons, Nat.eqb_refl. lia. }
-      rewrite Hd, Sa. cbn [andb]. destruct (Nat.eqb_spec (r a) 0) as [H0|H0]; [lia|].
+      rewrite (Hd a), Sa. cbn [andb]. destruct (Nat.eqb_spec (r a) 0) as [H0|H0]; [lia|].
       destruct (Nat.eqb (r a - 1) 0); reflexivity.
     + intros x Hx. apply Hs. rewrite cnt_cons. lia.
 Qed.
@@ -143,7 +151,7 @@ Proof.
     + intros x. unfold updn. destruct (Nat.eqb_spec x id) as [->|Hne]; [|apply Hd].
       rewrite Hd. assert (R1 : 1 <= refs s id) by (rewrite Hr; unfold owners; lia).
       destruct (Nat.eqb_spec (refs s id) 0); [lia|]. destruct (Nat.eqb_spec (refs s id + 1) 0); [lia|]. reflexivity.
-    + intros x. rewrite cnt_cons. intros H. destruct (Nat.eqb_spec id x) as [<-|Hne]; [apply Hs; unfold owners; lia|apply Hs; unfold owners; lia].
+    + intros x. rewrite cnt_cons. intros H. destruct (Nat.eqb id x) eqn:Ex; [apply Nat.eqb_eq in Ex; subst x|]; apply Hs; unfold owners; lia.
   - (* drop of a handle *)
     destruct (hget (handles s) h) as [id|] eqn:Eh; [|constructor; assumption].
     pose proof (hget_some_cnt _ _ _ Eh) as Own.
@@ -154,12 +162,13 @@ Proof.
     { intros x. pose proof (release_spec (refs s) (drops s) id x R1) as S. rewrite E in S. exact S. }
     assert (C := fun x => cnt_hdel x (handles s) h id Eh).
     constructor; unfold owners, is_sent; cbn [queues handles refs drops sent].
-    + intros x. destruct (Spec x) as [-> _]. specialize (C x). destruct (Nat.eqb_spec x id) as [->|Hne].
-      * rewrite Nat.eqb_refl in C. rewrite Hr. unfold owners. lia.
-      * destruct (Nat.eqb_spec id x); [congruence|]. rewrite Hr. unfold owners. lia.
-    + intros x. destruct (Spec x) as [Hrx ->]. rewrite Hrx. destruct (Nat.eqb_spec x id) as [->|Hne]; [|apply Hd].
+    + intros x. destruct (Spec x) as [-> _]. specialize (C x). destruct (Nat.eqb x id) eqn:Ex.
+      * apply Nat.eqb_eq in Ex. subst x. rewrite Nat.eqb_refl in C. rewrite Hr. unfold owners. lia.
+      * rewrite Nat.eqb_sym, Ex in C. rewrite Hr. unfold owners. lia.
+    + intros x. destruct (Spec x) as [Hrx ->]. rewrite Hrx. destruct (Nat.eqb x id) eqn:Ex; [|apply Hd].
+      apply Nat.eqb_eq in Ex. subst x.
       assert (Sa : is_sent s id = true) by (apply Hs; unfold owners; lia). unfold is_sent in Sa. rewrite Sa. cbn [andb].
-      rewrite Hd. unfold is_sent. rewrite Sa. cbn [andb]. destruct (Nat.eqb_spec (refs s id) 0); [lia|]. destruct (Nat.eqb (refs s id - 1) 0); reflexivity.
+      rewrite (Hd id). unfold is_sent. rewrite Sa. cbn [andb]. destruct (Nat.eqb_spec (refs s id) 0); [lia|]. destruct (Nat.eqb (refs s id - 1) 0); reflexivity.
     + intros x H. apply Hs. unfold owners. specialize (C x). lia.
   - (* teardown *)
     destruct (torn s); [constructor; assumption|]. destruct drains.
@@ -181,4 +190,22 @@ Proof.
   assert (G : forall s, LI s -> LI (fold_left (lstep drains clones) ops s)).
   { induction ops as [|o r IH]; intros s H; [exact H|]. cbn [fold_left]. apply IH. now apply li_step. }
   apply G, li_init.
+Qed.
+
+(* the property's clauses, for every history of send / receive / clone / drop / teardown, every number of listeners and both
+   teardown disciplines *)
+Theorem destroyed_at_most_once drains clones k ops id : drops (fold_left (lstep drains clones) ops (linit k)) id <= 1.
+Proof. rewrite (l_drops _ (li_reachable drains clones k ops)). destruct (_ && _); lia. Qed.
+
+Theorem not_destroyed_while_owned drains clones k ops id :
+  let s := fold_left (lstep drains clones) ops (linit k) in 0 < owners s id -> drops s id = 0.
+Proof.
+  cbn zeta. intros H. pose proof (li_reachable drains clones k ops) as I. rewrite (l_drops _ I), (l_refs _ I).
+  destruct (Nat.eqb_spec (owners (fold_left (lstep drains clones) ops (linit k)) id) 0); [lia|]. now rewrite andb_false_r.
+Qed.
+
+Theorem destroyed_as_soon_as_released drains clones k ops id :
+  let s := fold_left (lstep drains clones) ops (linit k) in is_sent s id = true -> owners s id = 0 -> drops s id = 1.
+Proof.
+  cbn zeta. intros Hs H. pose proof (li_reachable drains clones k ops) as I. rewrite (l_drops _ I), (l_refs _ I), Hs, H. reflexivity.
 Qed.
